@@ -91,7 +91,8 @@ Definition topob (d : mgraph) (ord : list nat) : bool :=
 
 (* run_case: L [I mode; graph; ord]
    -> L [I ok; nodes; directed; undirected (normalised pairs); I topo_ok; oracle]
-   ok = 1 unless out of fuel; oracle = essential edges by brute force (mode 0 only, else L []) *)
+   ok = 1 unless out of fuel; oracle = essential edges by brute force (mode 0 only, else L []);
+   a 7th element lists the edges in increasing "order" number (order_model), for the unit-level tie of order_edges *)
 Definition run_case (s : sx) : sx :=
   let g := sx_graph (sx_nth s 1) in
   let d := mkd (V g) (D g) in
@@ -101,7 +102,8 @@ Definition run_case (s : sx) : sx :=
              | _ => L []
              end in
   match cpdag_model d ord with
-  | None => L [I 0; L []; L []; L []; of_bool (topob d ord); orc]
+  | None => L [I 0; L []; L []; L []; of_bool (topob d ord); orc; of_pairs (order_model d ord)]
   | Some (vs, c, r) =>
-      L [I 1; of_nats (sort_set vs); of_pairs (psort_set c); of_pairs (norm_pairs r); of_bool (topob d ord); orc]
+      L [I 1; of_nats (sort_set vs); of_pairs (psort_set c); of_pairs (norm_pairs r); of_bool (topob d ord); orc;
+         of_pairs (order_model d ord)]
   end.
